@@ -131,6 +131,17 @@ def build_catalogue():
     op("CRC32.calculate_even", "shared")(lambda: ((lambda: (bytes(range(1, 21)),)), (lambda d: CRC32.calculate(d))))
     op("CRC32.calculate_odd", "shared")(lambda: ((lambda: (bytes(range(7, 24)),)), (lambda d: CRC32.calculate(d))))
     op("CRC32.check", "shared")(lambda: ((lambda: (bytes(range(1, 21)),)), (lambda d: CRC32.check(d, 0x12345678))))
+    # inputs that collide under careless memoisation keys: same octets, different bit length / storage order
+    op("CRC8.calculate_A_padded32", "shared")(lambda: ((lambda: (ba(MSG_A[:28] + "0000"),)), (lambda b: CRC8.calculate(b))))
+    op("CRC9.calculate_bits_88", "shared")(lambda: ((lambda: (ba(MSG_A[:87] + "0"),)), (lambda b: CRC9.calculate(b, CrcMasks.Rate34DataContinuation))))
+    op("CRC8.calculate_A_little_endian", "shared")(lambda: ((lambda: (bitarray(MSG_A[:28], endian="little"),)), (lambda b: CRC8.calculate(b))))
+    for cname, cfg in (("crc7", Crc7.ETSI_DMR), ("crc16", Crc16.ETSI_DMR)):
+        for tb in (False, True):
+            def f2(cfg=cfg, tb=tb):
+                return (lambda: (ba(MSG_B[:61] + "000"),)), (lambda bits: BitCrcCalculator(table_based=tb, configuration=cfg).calculate_checksum(bits))
+            op(f"{cname}_{'table' if tb else 'bitwise'}_m1_padded64", "shared")(f2)
+    op("CRC16.calculate_hdr_trailing_zero_octet", "shared")(lambda: ((lambda: (HEX("023a2337fc2337fe8200") + b"\x00",)), (lambda d: CRC16.calculate(d, CrcMasks.DataHeader))))
+    op("CRC32.calculate_even_plus_zero", "shared")(lambda: ((lambda: (bytes(range(1, 21)) + b"\x00\x00",)), (lambda d: CRC32.calculate(d))))
     op("byteswap_bytes")(lambda: ((lambda: (b"\x01\x02\x03\x04\x05",)), (lambda d: byteswap_bytes(d))))
     op("byteswap_bytearray_even")(lambda: ((lambda: (bytearray(b"\x01\x02\x03\x04"),)), (lambda d: byteswap_bytearray(d))))
     op("byteswap_bytearray_odd")(lambda: ((lambda: (bytearray(b"\x01\x02\x03\x04\x05"),)), (lambda d: byteswap_bytearray(d))))
@@ -377,6 +388,7 @@ def run_op(name):
     make_args, call, flags = OPS[name]
     args = make_args()
     before = h(canon(args, skip=SKIP))
+    res = None
     try:
         res = call(*args)
         rd = h(canon(res, skip=SKIP))
@@ -385,7 +397,40 @@ def run_op(name):
         rd = "raises:" + type(e).__name__
         short = rd
     after = h(canon(args, skip=SKIP))
+    if res is not None:
+        scribble(res)
     return rd, (before == after) or ("inplace" in flags), short
+
+
+def scribble(res, depth=0):
+    """the caller owns what a codec call returns: overwrite every mutable buffer in the result in place (after it was digested),
+    so that a cached / shared object handed out by the library shows up as history dependence of a later call"""
+    try:
+        if isinstance(res, bitarray):
+            res.invert()
+            res.extend("1011")
+        elif isinstance(res, bytearray):
+            for i in range(len(res)):
+                res[i] ^= 0xFF
+            res.extend(b"\xa5")
+        elif isinstance(res, list) and depth < 3:
+            for x in res:
+                scribble(x, depth + 1)
+            res.append("scribble")
+        elif isinstance(res, dict) and depth < 3:
+            for x in list(res.values()):
+                scribble(x, depth + 1)
+            res["scribble"] = 1
+        elif isinstance(res, tuple) and depth < 3:
+            for x in res:
+                scribble(x, depth + 1)
+        elif type(res).__module__ == "numpy" and hasattr(res, "fill"):
+            res.fill(1)
+        elif type(res).__name__ == "array" and hasattr(res, "typecode"):
+            for i in range(len(res)):
+                res[i] = 1
+    except Exception:  # noqa: BLE001  (read-only results are fine)
+        pass
 
 
 def run_sequence_isolated(seq, seam=None):
